@@ -12,6 +12,8 @@ Every model states the library's documented behaviour only (nothing about quante
                              the right-hand side is read BEFORE the store (numpy copies on assignment)
   a[:, [j0, j1, ..]]         advanced indexing returns a NEW array (copy), a[:, j] / a[lo:hi] basic indexing returns a VIEW
   copy.deepcopy(x)           nested lists are rebuilt, arrays are copied (new objects, equal contents), None stays None
+  a.astype(dt) / a.dtype     (arrays with a tracked storage dtype) new array of dtype dt (None = float64); values converted by cast_fn
+  np.asarray(obj)            obj.__array__() for an object implementing the array protocol
   set(xs) (only its len)     number of distinct elements
   list.index(x)              position of the first element equal to x, ValueError if absent
 
@@ -32,9 +34,56 @@ from ..interp import RaiseSig
 _FRZ = [0]
 
 
-def ndarray(shape, fn, kind="real", name=None):
+# ---- storage dtype (ghost) -------------------------------------------------------------------------------------------
+# A1 keeps VALUES mathematical; the dtype of an array is a ghost tag `np_dtype` (a real numpy dtype, or None = not tracked).
+# Result dtypes follow numpy (np.result_type; np.zeros / empty default float64; astype(None) = float64).  A cast between two
+# different dtypes is the identity on values only where it is value-preserving for EVERY element; otherwise it is an
+# uninterpreted function of the element (int64 -> float64 rounds above 2**53, complex -> float drops the imaginary part,
+# float -> int truncates, float64 -> float32 rounds): nothing but congruence is known about it.
+VALUE_PRESERVING = {("float32", "float64"), ("float32", "complex64"), ("float32", "complex128"), ("float64", "complex128"), ("complex64", "complex128"),
+                    ("int8", "int16"), ("int8", "int32"), ("int8", "int64"), ("int16", "int32"), ("int16", "int64"), ("int32", "int64"),
+                    ("int8", "float32"), ("int16", "float32"), ("int8", "float64"), ("int16", "float64"), ("int32", "float64"),
+                    ("int32", "complex128"), ("bool", "int64"), ("bool", "float64")}
+
+
+def np_dtype(arr):
+    return getattr(arr, "np_dtype", None)
+
+
+def tag(arr, dt):
+    arr.np_dtype = None if dt is None else np.dtype(dt)
+    return arr
+
+
+def result_dtype(arrs):
+    dts = [np_dtype(a) for a in arrs]
+    if any(d is None for d in dts) or not dts:
+        return None
+    return np.result_type(*dts)
+
+
+def cast_fn(fn, src, dst):
+    """Index function of an array converted from dtype `src` to dtype `dst`."""
+    if src is None or dst is None or src == dst or (src.name, dst.name) in VALUE_PRESERVING:
+        return fn
+    f = z3.Function(f"cast_{src.name}_to_{dst.name}", z3.RealSort(), z3.RealSort())
+
+    def g(*idx):
+        t = lift(fn(*idx))
+        if z3.is_bool(t):
+            t = z3.If(t, z3.RealVal(1), z3.RealVal(0))
+        if z3.is_int(t):
+            t = z3.ToReal(t)
+        return Sym(f(t))
+
+    return g
+
+
+def ndarray(shape, fn, kind="real", name=None, dtype=None):
     a = SymArr(tuple(shape), fn, kind, name=name)
     a.as_type = np.ndarray
+    if dtype is not None:
+        tag(a, dtype)
     return a
 
 
@@ -61,11 +110,11 @@ def frozen_fn(arr):
 
 def freeze(arr, name=None):
     """New array object with the current contents of `arr` (a copy)."""
-    r = ndarray(arr.shape, frozen_fn(arr), arr.kind, name=name or arr.name)
+    r = ndarray(arr.shape, frozen_fn(arr), arr.kind, name=name or arr.name, dtype=np_dtype(arr))
     return r
 
 
-def fresh_cell(ctx, name, cols, ndim=2, rows=None):
+def fresh_cell(ctx, name, cols, ndim=2, rows=None, dtype=None):
     """Arbitrary real array: `rows` x `cols` (ndim 2), or 1-D of length rows, or 3-D rows x cols x extra."""
     if rows is None:
         rows = ctx.fresh(name + "_rows", "int")
@@ -80,6 +129,8 @@ def fresh_cell(ctx, name, cols, ndim=2, rows=None):
         shape = (rows, cols, extra)
     a = ctx.fresh_arr(name, shape, "real")
     a.as_type = np.ndarray
+    if dtype is not None:
+        tag(a, dtype)
     return a
 
 
@@ -92,7 +143,8 @@ def _prefix(lengths):
 
 def concat_rows(arrs):
     """Row-wise concatenation of 1-D or 2-D arrays with equal trailing shape (caller checked)."""
-    fns = [frozen_fn(a) for a in arrs]
+    rdt = result_dtype(arrs)
+    fns = [cast_fn(frozen_fn(a), np_dtype(a), rdt) for a in arrs]
     offs = _prefix([a.shape[0] for a in arrs])
     nd = arrs[0].ndim
 
@@ -104,7 +156,7 @@ def concat_rows(arrs):
         return r
 
     shape = (offs[-1],) + tuple(arrs[0].shape[1:])
-    return ndarray(shape, fn, arrs[0].kind)
+    return ndarray(shape, fn, arrs[0].kind, dtype=rdt)
 
 
 def install(reg):
@@ -122,7 +174,7 @@ def install(reg):
         for d in shape:
             if contains_sym(d) and interp.truth(S(d) < 0):
                 raise RaiseSig(ValueError("negative dimensions are not allowed"))
-        return ndarray(shape, lambda *i: 0.0, "real")
+        return ndarray(shape, lambda *i: 0.0, "real", dtype=dtype or "float64")
 
     M[np.zeros] = m_zeros
 
@@ -130,7 +182,7 @@ def install(reg):
         shape = _shape_of(shape)
         if not contains_sym(shape):
             return interp.native(np.ones, shape, dtype=dtype, **kw)
-        return ndarray(shape, lambda *i: 1.0, "real")
+        return ndarray(shape, lambda *i: 1.0, "real", dtype=dtype or "float64")
 
     M[np.ones] = m_ones
 
@@ -146,11 +198,12 @@ def install(reg):
         def h(interp, x, dtype=None, **kw):
             if not isinstance(x, SymArr):
                 return interp.native(f, x, dtype=dtype, **kw)
+            dt = dtype if dtype is not None else np_dtype(x)
             if val is None:
                 a = interp.ctx.fresh_arr("np_empty_like", x.shape, "real")
                 a.as_type = np.ndarray
-                return a
-            return ndarray(x.shape, lambda *i: val, "real")
+                return tag(a, dt)
+            return ndarray(x.shape, lambda *i: val, "real", dtype=dt)
         return h
 
     M[np.zeros_like] = _like(np.zeros_like, 0.0)
@@ -171,7 +224,7 @@ def install(reg):
             return interp.native(np.empty, shape, dtype=dtype, **kw)
         a = interp.ctx.fresh_arr("np_empty", shape, "real")
         a.as_type = np.ndarray
-        return a
+        return tag(a, dtype or "float64")
 
     M[np.empty] = m_empty
 
@@ -192,7 +245,7 @@ def install(reg):
                 raise OutOfSubset("concrete ndarray mixed with symbolic arrays")
 
             if x.size == 0:
-                return ndarray(x.shape, lambda *i: 0.0, "real")
+                return ndarray(x.shape, lambda *i: 0.0, "real", dtype=x.dtype)
             raise OutOfSubset("concrete non-empty ndarray mixed with symbolic arrays")
         raise OutOfSubset(f"array-like {type(x).__name__} in stack/concatenate")
 
@@ -208,7 +261,8 @@ def install(reg):
             if not V.dims_equal(rows, x.shape[0]):
                 if interp.truth(S(rows) != S(x.shape[0])):
                     raise RaiseSig(ValueError("all the input array dimensions except for the concatenation axis must match exactly"))
-        fns = [frozen_fn(x) for x in xs]
+        rdt = result_dtype(xs)
+        fns = [cast_fn(frozen_fn(x), np_dtype(x), rdt) for x in xs]
         offs = _prefix([x.shape[1] for x in xs])
 
         def fn(i, j):
@@ -217,7 +271,7 @@ def install(reg):
                 r = ite(j < lift(offs[q + 1]), fns[q](i, j - lift(offs[q])), r)
             return r
 
-        return ndarray((rows, offs[-1]), fn, xs[0].kind)
+        return ndarray((rows, offs[-1]), fn, xs[0].kind, dtype=rdt)
 
     M[np.hstack] = m_hstack
 
@@ -350,7 +404,10 @@ def install(reg):
         k = key if isinstance(key, tuple) else (key,)
         adv = any(isinstance(e, list) or (isinstance(e, SymArr) and e.ndim >= 1) or isinstance(e, np.ndarray) for e in k)
         if not adv:
-            return NotImplemented
+            if np_dtype(base) is None:
+                return NotImplemented
+            r = SymArr.__getitem__(base, key)  # basic indexing (a view); the dtype tag travels with it
+            return tag(r, np_dtype(base)) if isinstance(r, SymArr) else r
         k2 = []
         for ax, e in enumerate(k):
             if isinstance(e, np.ndarray):
@@ -367,7 +424,7 @@ def install(reg):
             k2.append(e)
         r = SymArr.__getitem__(base, tuple(k2))
         if isinstance(r, SymArr):
-            r = freeze(r)  # advanced indexing copies
+            r = tag(freeze(r), np_dtype(base))  # advanced indexing copies
         return r
 
     reg.getitem_models[SymArr] = gi
@@ -389,7 +446,7 @@ def install(reg):
             if value.ndim != 1:
                 raise OutOfSubset("column store of a non-1-D array")
             m = value.shape[0]
-            vf = frozen_fn(value)
+            vf = cast_fn(frozen_fn(value), np_dtype(value), np_dtype(base))  # the store converts to the destination's dtype
             if V.dims_equal(m, rows):
                 col = lambda r: vf(r)
             else:
@@ -414,6 +471,52 @@ def install(reg):
         return True
 
     reg.setitem_models[SymArr] = si
+
+    # ---- .astype(dtype) / .dtype on arrays whose storage dtype is tracked ---------------------------------------------
+    prev_attr = reg.attr_models.get(SymArr)
+
+    def arr_attr(interp, base, name):
+        if is_nd(base) and np_dtype(base) is not None:
+            if name == "dtype":
+                return np_dtype(base)
+            if name == "astype":
+                def astype(dtype=None, *a, copy=True, **kw):
+                    dst = np.dtype("float64") if dtype is None else np.dtype(dtype)  # astype(None): numpy's default dtype, float64
+                    return ndarray(base.shape, cast_fn(frozen_fn(base), np_dtype(base), dst), base.kind, dtype=dst)
+
+                astype._sym_ok = True
+                return astype
+            if name == "copy":
+                def copy_(*a, **kw):
+                    return freeze(base)
+
+                copy_._sym_ok = True
+                return copy_
+        if prev_attr is not None:
+            return prev_attr(interp, base, name)
+        return NotImplemented
+
+    reg.attr_models[SymArr] = arr_attr
+
+    # ---- np.asarray / np.array of an abstract object that implements the array protocol: numpy calls obj.__array__() --------
+    prev_asarray = M.get(np.asarray)
+
+    def m_asarray(interp, x, dtype=None, **kw):
+        from ..values import Obj
+
+        if isinstance(x, Obj) and hasattr(x.cls, "__array__"):
+            r = interp.call(interp.getattr(x, "__array__"), [], {})
+            if dtype is not None and isinstance(r, SymArr):
+                r = interp.call(interp.getattr(r, "astype"), [dtype], {})
+            return r
+        if isinstance(x, SymArr) and np_dtype(x) is not None and not x.pylist:
+            if dtype is not None and np.dtype(dtype) != np_dtype(x):
+                return interp.call(interp.getattr(x, "astype"), [dtype], {})
+            return x
+        return prev_asarray(interp, x, dtype=dtype, **kw)
+
+    M[np.asarray] = m_asarray
+    M[np.array] = m_asarray
 
     # ---- lst[i] = v with symbolic i and structured elements (arrays / None / sublists): fork on the position -------
     def si_list(interp, base, key, v):
